@@ -116,7 +116,7 @@ pub fn run_session(s: &Session, out: &mut dyn Write) -> usize {
         big[..buf.len()].copy_from_slice(&buf);
         // one pass over the buffer at 20 MB/s is allowed for, per entry point and then some
         crate::util::set_extra_budget_ms(total / 20_000);
-        let obs = huge_entry_points(&big);
+        let obs = huge_entry_points(&big, buf.first() == Some(&b'P'));
         crate::util::set_extra_budget_ms(0);
         drop(big);
         writeln!(out, "{}", json!({"sid": s.sid, "op": "Huge", "c": rl(&vec![0u8; m]), "gib": pad >> 30, "n": pad & ((1u64 << 30) - 1), "m": m, "obs": obs})).unwrap();
